@@ -396,11 +396,19 @@ func (s *Scanner) ScanTopologyExact(topo *topology.FunctionTopology, funcName st
 	s.mu.RLock()
 	defer s.mu.RUnlock()
 
-	if s.db == nil || len(s.db.Signatures) == 0 {
+	if s.db == nil || len(s.db.Signatures) == 0 || topo == nil {
 		return nil, nil
 	}
 
+	topoHash := detection.GenerateTopologyHash(topo)
+
 	for _, sig := range s.db.Signatures {
+		// Exact mode means an exact topology hash match, as in the Pebble backend. Without this
+		// filter the first signature whose similarity-based score reaches the cut-off wins,
+		// and a tiny unrelated signature stored earlier in the file shadows the function's own.
+		if sig.TopologyHash != topoHash {
+			continue
+		}
 		// Using a strict 0.0 tolerance. We are looking for twins, not cousins.
 		result := detection.MatchSignature(topo, funcName, sig, 0.0)
 		if result.Confidence >= 0.99 {
